@@ -14,7 +14,7 @@ def hkOf (name : String) : HK :=
   match name with
   | "BINDING" => .binding | "NODE" => .node | "PREDICATE" => .predicate | "PREDICATE_BOUND" => .predicateBound
   | "LITERAL" => .literal | "AS" => .as_ | "TYPE" => .type_ | "ID" => .id_ | "AT" => .at_ | "OPTIONAL" => .optional
-  | "LEFT_BRACKET" => .lbracket | "RIGHT_BRACKET" => .rbracket | _ => .other
+  | "LEFT_BRACKET" => .lbracket | "RIGHT_BRACKET" => .rbracket | "ASC" => .asc | "DESC" => .desc | _ => .other
 
 def parseTok (s : String) : Option (Tok × HTk) :=
   match s.splitOn "~" with
@@ -50,6 +50,7 @@ def parseTok (s : String) : Option (Tok × HTk) :=
 def chEv : CHook → List HEv
   | .next => [.next]
   | .init => [.init]
+  | .orderCheck => [.orderCheck]
   | .none => []
 
 /-- Parser events → what the WHERE hooks are handed. -/
@@ -62,10 +63,11 @@ def toHEvs : List (Ev Tok Sym (Tok × HTk)) → List HEv
 
 def eofTk : Tok × HTk := (bql.eof, { k := .other })
 
-/-- The pattern clauses the model hooks build from a token list; `none`: rejected by parser or hooks. -/
-def clausesOf (toks : List (Tok × HTk)) : Option (List Clause) :=
+/-- The pattern clauses and the ORDER BY list the model hooks build from a token list; `none`: rejected by
+    parser or hooks. -/
+def clausesOf (toks : List (Tok × HTk)) : Option (List Clause × List (Bytes × Bool)) :=
   match parseWith bql (fun t => t.1) eofTk (64 + 128 * toks.length) toks with
-  | .accept rest evs => if rest.isEmpty then (wrun { stmt := 1 } (toHEvs evs)).map (·.pattern) else none
+  | .accept rest evs => if rest.isEmpty then (wrun { stmt := 1 } (toHEvs evs)).map (fun w => (w.pattern, w.order)) else none
   | _ => none
 
 def main : IO Unit := do
@@ -73,15 +75,20 @@ def main : IO Unit := do
   forLines stdin fun line => do
     match words line with
     | "Q" :: ws =>
-      match kv ws "tk", kv ws "c" with
-      | some tk, some c =>
-        match listOf ";" parseTok tk, listOf ";" parseClause c with
-        | some toks, some want =>
+      match kv ws "tk", kv ws "c", kv ws "ob" with
+      | some tk, some c, some ob =>
+        let wantOb := listOf "," (fun x => match x.splitOn ":" with
+          | [b, d] => do pure (← hexStr b, d == "1")
+          | _ => none) ob
+        match listOf ";" parseTok tk, listOf ";" parseClause c, wantOb with
+        | some toks, some want, some wantOb =>
           match clausesOf toks with
-          | some got => IO.println (if got == want then "same" else s!"differs model={repr got}")
+          | some (got, gotOb) =>
+            IO.println (if got == want && gotOb == wantOb then "same"
+              else if got == want then s!"differs order-by model={repr gotOb}" else s!"differs model={repr got}")
           | none => IO.println "model-rejects"
-        | _, _ => IO.println "bad-op"
-      | _, _ => IO.println "-"
+        | _, _, _ => IO.println "bad-op"
+      | _, _, _ => IO.println "-"
     | _ => IO.println "-"
 
 end Driver.Hooks
